@@ -12,10 +12,13 @@ import time
 
 VERIF = os.path.dirname(os.path.dirname(os.path.abspath(__file__)))
 SPECS = os.path.join(VERIF, "specs")
-HARNESS = os.path.join(VERIF, "harness")
-WORK = os.path.join(VERIF, "work")
-REPLAYS = os.path.join(VERIF, "replays")
-EVIDENCE = os.path.join(VERIF, "evidence")
+# VERIF_HARNESS / VERIF_OUT exist so that seeded changes can be checked against a scratch copy of the
+# repository without touching /repo, /verif/evidence or a concurrently running check.
+HARNESS = os.environ.get("VERIF_HARNESS", os.path.join(VERIF, "harness"))
+OUT = os.environ.get("VERIF_OUT", VERIF)
+WORK = os.path.join(OUT, "work")
+REPLAYS = os.path.join(OUT, "replays")
+EVIDENCE = os.path.join(OUT, "evidence")
 VH = os.path.join(HARNESS, "target", "debug", "vh")
 TLA_CP = "/opt/veriftools/tla/tla2tools.jar:/opt/veriftools/tla/CommunityModules-deps.jar"
 
@@ -426,6 +429,9 @@ def replay_part(v, name, module, cfg, engine, tier, key_prefix, stride=1, timeou
                     f"TLC: {res['tlc']['errors'][0]} in {module}/{cfg}", {"errors": res["tlc"]["errors"]})
     if res["cases"] < min_cases:
         vacuous(f"{name}: only {res['cases']} behaviours exported")
+    for key, f in (res.get("findings") or {}).items():
+        v.violation(key, f"{f['count']} behaviour(s) of the real code break the property in the specific way "
+                         f"`{key}`; first: {json.dumps(f['first'])[:500]}", f)
     if res.get("drift_count"):
         first = res["drifts"][0] if res.get("drifts") else {}
         v.drift(name, f"{res['drift_count']} behaviour(s) keep the property but differ from the code-shaped model "
